@@ -42,6 +42,9 @@ LibraryOptions(f) ==
 \* "link.graphql": the query path (and the schema path) given on the command line are symbolic links to
 \* files with other names and no extension in another directory; names and placement follow the GIVEN path
 QueryNames == {"ops.graphql", "user.query.graphql", "nested/dir/ops.gql", "link.graphql"}
+\* the schema file is named with each extension the library reads as SDL (the CLI must not be stricter)
+SchemaNameFor == ("ops.graphql" :> "schema.graphql") @@ ("user.query.graphql" :> "schema.graphqls") @@
+                 ("nested/dir/ops.gql" :> "schema.gql") @@ ("link.graphql" :> "schema.graphql")
 \* file name with the last extension replaced by rs
 RsName == ("ops.graphql" :> "ops.rs") @@ ("user.query.graphql" :> "user.query.rs") @@ ("nested/dir/ops.gql" :> "ops.rs")
           @@ ("link.graphql" :> "link.rs")
